@@ -94,6 +94,7 @@ bucket_merge(Bucket *s1, Bucket *s2, Bucket *s3)
   int cmp12, cmp13, cmp23, mapping, set;
 
   /* If either "after" bucket is empty, punt. */
+  VERIF_PROBE(23);
   if (s2->len == 0 || s3->len == 0)
     {
       merge_error(-1, -1, -1, 12);
